@@ -129,6 +129,20 @@ Definition is_sup (s : state) (parents : list nat) (c : content) : bool :=
 Definition current_elsewhere (s : state) (c : content) (parents : list nat) : bool :=
   existsb (fun i => negb (mem i parents)) (ids_from 0 (fun r => r_cur r && content_eqb (r_c r) c) (rows s)).
 
+(** The loop `for tag_row in superseded_tag_rows: self.record_tags(..., [(key, value)],
+    parents=[tag_row.tag_hash], new=True)`; [rec] is that recursive call.  tag_row.tag_hash was
+    computed before the loop, i.e. it is the position in [s0]. *)
+Fixpoint go_sup (rec : state -> content -> nat -> outcome) (s0 : state) (ps : list nat)
+         (s' : state) (l : list content) : outcome :=
+  match l with
+  | [] => Done s'
+  | c :: l' =>
+    match find_id s0 c ps with
+    | Some i => match rec s' c i with Done s'' => go_sup rec s0 ps s'' l' | o => o end
+    | None => go_sup rec s0 ps s' l'
+    end
+  end.
+
 Fixpoint record_tags (g : cfg) (fuel : nat) (s : state) (e : nat) (tags : list content)
          (parents : list nat) (update new : bool) {struct fuel} : outcome :=
   match fuel with
@@ -147,19 +161,7 @@ Fixpoint record_tags (g : cfg) (fuel : nat) (s : state) (e : nat) (tags : list c
                     then filter (fun c => negb (current_elsewhere s c parents)) tags else tags in
         let sup := filter (is_sup s parents) tags in
         let rest := filter (fun c => negb (is_sup s parents c)) tags in
-        match (fix go (s' : state) (l : list content) {struct l} : outcome :=
-                 match l with
-                 | [] => Done s'
-                 | c :: l' =>
-                   match find_id s c parents with            (* tag_row.tag_hash, computed before the loop *)
-                   | Some i =>
-                     match record_tags g f s' e [c] [i] false true with
-                     | Done s'' => go s'' l'
-                     | o => o
-                     end
-                   | None => go s' l'
-                   end
-                 end) s sup with
+        match go_sup (fun s' c i => record_tags g f s' e [c] [i] false true) s parents s sup with
         | Done s1 => commit_batch s1 rest parents
         | o => o
         end
